@@ -215,7 +215,7 @@ def _run(prop, prop_id, tier, seed, args, workdir, env, watchdog, reasons, t0) -
             continue
         new_violations += len(vs)
         for k, v in enumerate(vs[:3]):
-            path = os.path.join(replay_dir, f"{prop_id}-{tier}-s{seed}-{mech.replace('/', '_').replace(':', '_')[:60]}-{k}.json")
+            path = os.path.join(replay_dir, f"{prop_id}-{tier}-s{seed}-p{os.getpid()}-{mech.replace('/', '_').replace(':', '_')[:60]}-{k}.json")
             with open(path, "w", encoding="utf-8") as f:
                 json.dump({"property": prop_id, "seed": seed, "tier": tier, "index": v["i"], "case": v["case"],
                            "mechanism": mech, "detail": v.get("detail")}, f, indent=1)
